@@ -3,6 +3,7 @@ package main
 import (
 	"fmt"
 	"go/token"
+	"go/types"
 	"sort"
 	"strings"
 
@@ -233,6 +234,8 @@ func runC04(c *Ctx) {
 		c.Unresolved("C04.R5", fmt.Sprintf("VirtualHostImpl.routes/fastIndex accesses (found %d)", nacc))
 	}
 
+	c04NoEscape(c, pkg)
+
 	// R6 purity: stores to fields of routersImpl / VirtualHostImpl / RouteRuleImplBase in functions reachable from the lookups
 	roots := []*ssa.Function{c.M(pkg, "routersImpl", "MatchRoute"), c.M(pkg, "routersImpl", "MatchAllRoutes"), c.M(pkg, "routersImpl", "MatchRouteFromHeaderKV")}
 	seen := map[*ssa.Function]bool{}
@@ -396,17 +399,184 @@ func forwardSliceLoop(fn *ssa.Function, field string) bool {
 			if !ok {
 				continue
 			}
-			if _, f, _, ok := loadedField(ia.X); !ok || f != field {
+			if !derivesFromField(ia.X, field, 0) {
 				continue
 			}
 			if sl, ok := rangeLoopSlice(ia.Index); ok {
-				if _, f2, _, ok := loadedField(sl); ok && f2 == field {
+				if sl == ia.X || derivesFromField(sl, field, 0) {
 					return true
 				}
 			}
 		}
 	}
 	return false
+}
+
+// derivesFromField: v is the slice held in the field, in the field's order: the loaded field itself, an order-preserving
+// copy of it (append(nil-or-fresh, field...), make+copy), or the result of a same-package function all of whose returns are.
+func derivesFromField(v ssa.Value, field string, depth int) bool {
+	if depth > 3 {
+		return false
+	}
+	v = stripConv(v)
+	if _, f, _, ok := loadedField(v); ok && f == field {
+		return true
+	}
+	switch x := v.(type) {
+	case *ssa.Call:
+		cc := x.Common()
+		if b, ok := cc.Value.(*ssa.Builtin); ok && b.Name() == "append" && len(cc.Args) == 2 {
+			// append(dst, field...) where dst is empty
+			if derivesFromField(cc.Args[1], field, depth+1) && (isNilConst(cc.Args[0]) || emptyFresh(cc.Args[0])) {
+				return true
+			}
+			return false
+		}
+		if callee := cc.StaticCallee(); callee != nil && callee.Blocks != nil && !cc.IsInvoke() {
+			sites := returnSites(callee, 0)
+			if len(sites) == 0 {
+				return false
+			}
+			for _, rs := range sites {
+				if !derivesFromField(rs.val, field, depth+1) {
+					return false
+				}
+			}
+			return true
+		}
+	case *ssa.MakeSlice:
+		// make + copy(dst, field)
+		for _, r := range refs(x) {
+			if c, ok := r.(*ssa.Call); ok {
+				if b, ok := c.Call.Value.(*ssa.Builtin); ok && b.Name() == "copy" && c.Call.Args[0] == ssa.Value(x) && derivesFromField(c.Call.Args[1], field, depth+1) {
+					return true
+				}
+			}
+		}
+	}
+	return false
+}
+
+func emptyFresh(v ssa.Value) bool {
+	switch x := v.(type) {
+	case *ssa.MakeSlice:
+		n, ok := constInt(x.Len)
+		return ok && n == 0
+	case *ssa.Slice:
+		// make([]T, 0, n) is lowered to new [n]T; slice[:0]
+		if _, ok := x.X.(*ssa.Alloc); ok && x.High != nil {
+			n, ok := constInt(x.High)
+			return ok && n == 0
+		}
+	}
+	return false
+}
+
+// c04NoEscape (R5): while writers update the backing array in place (append / truncate-and-reuse), the slice read from
+// the field under the lock must not be used once the lock is released: not returned, stored elsewhere, or indexed after
+// the unlock. Exempt when every writer installs a freshly built slice (copy-on-write), which makes old headers immutable.
+func c04NoEscape(c *Ctx, pkg string) {
+	cow := true
+	for _, f := range c.PkgFuncs(pkg) {
+		for _, st := range storesToField(f, ".VirtualHostImpl", "routes", false) {
+			switch v := st.Val.(type) {
+			case *ssa.Call:
+				if methodName(v.Common()) == "append" {
+					if _, fl, _, ok := loadedField(v.Common().Args[0]); ok && fl == "routes" {
+						cow = false
+					}
+				}
+			case *ssa.Slice:
+				if _, fl, _, ok := loadedField(v.X); ok && fl == "routes" {
+					cow = false
+				}
+			}
+		}
+	}
+	ord := ordCounter{}
+	n := 0
+	for _, f := range c.PkgFuncs(pkg) {
+		if strings.HasPrefix(f.Name(), "New") {
+			continue
+		}
+		forEachInstr(f, false, func(_ *ssa.Function, in ssa.Instruction) {
+			ld, ok := in.(*ssa.UnOp)
+			if !ok || ld.Op != token.MUL {
+				return
+			}
+			if _, fl, _, okf := fieldAddrInfo(ld.X); !okf || fl != "routes" {
+				return
+			}
+			if !strings.HasSuffix(typeName(fieldBaseType(ld.X)), ".VirtualHostImpl") {
+				return
+			}
+			n++
+			key := ord.next(f, "routes-view")
+			if cow {
+				c.Pass("C04.R5", key, ld.Pos(), "writers are copy-on-write: a loaded header is immutable")
+				return
+			}
+			bad := ""
+			seen := map[ssa.Value]bool{}
+			var walk func(v ssa.Value)
+			walk = func(v ssa.Value) {
+				if seen[v] || bad != "" {
+					return
+				}
+				seen[v] = true
+				for _, r := range refs(v) {
+					switch u := r.(type) {
+					case *ssa.Return:
+						bad = "returned to the caller"
+					case *ssa.Store:
+						if u.Val == v {
+							if _, fl, _, okf := fieldAddrInfo(u.Addr); okf && fl == "routes" {
+								continue // written back to the field itself
+							}
+							bad = "stored outside the field"
+						}
+					case *ssa.Slice:
+						walk(u)
+					case *ssa.Phi:
+						walk(u)
+					case *ssa.ChangeType:
+						walk(u)
+					case *ssa.IndexAddr:
+						if !lockHeld(u, "mutex") {
+							bad = "elements read after the lock is released"
+						}
+					case *ssa.Call:
+						if b, isB := u.Call.Value.(*ssa.Builtin); isB {
+							if b.Name() == "append" && len(u.Call.Args) > 0 && u.Call.Args[0] == v {
+								walk(u) // append(routes, r): result is written back (checked at the store)
+							}
+							if (b.Name() == "append" || b.Name() == "copy") && len(u.Call.Args) > 1 && u.Call.Args[1] == v && !lockHeld(u, "mutex") {
+								bad = "copied after the lock is released"
+							}
+							continue
+						}
+						if !lockHeld(u, "mutex") {
+							bad = "passed to a call made without the lock"
+						}
+					case *ssa.MakeClosure, *ssa.MakeInterface, *ssa.Go, *ssa.Defer:
+						bad = "captured"
+					}
+				}
+			}
+			walk(ld)
+			c.Check("C04.R5", key, ld.Pos(), bad == "", "the route list read under the lock is only used while the lock is held", "the route list read under vh.mutex is "+bad+", but AddRoute/RemoveAllRoutes rewrite its backing array in place: a lookup can walk a mixture of the old and the new route list and return a route that is the first match of neither")
+		})
+	}
+	if n < 3 {
+		c.Unresolved("C04.R5", fmt.Sprintf("loads of VirtualHostImpl.routes (found %d)", n))
+	}
+}
+
+func fieldBaseType(addr ssa.Value) types.Type {
+	if fa, ok := addr.(*ssa.FieldAddr); ok {
+		return fa.X.Type()
+	}
+	return addr.Type()
 }
 
 // c04Precedence: decision points of findHighestPriorityIndex in order.
